@@ -9,6 +9,7 @@ UNIT_MODES = {
     'powlog': ['dbg', 'rel'],
     'div': ['dbg', 'rel'],
     'bits': ['dbg', 'rel'],
+    'random': ['dbg', 'rel'],
 }
 
 # property -> verus units owned by the property (dependencies are added automatically) and the
@@ -21,14 +22,15 @@ PROPS = {
     'C06': dict(units=['bits'], title='bitwise logic, counts, bit manipulation'),
     'C07': dict(units=['cmp', 'cmp2'], title='comparison, equality, hashing'),
     'C08': dict(units=['powlog'], title='powers and logarithms'),
-    'C09': dict(units=['xcast'], title='integer casts'),
+    'C09': dict(units=['cast', 'xcast'], title='integer casts'),
     'C10': dict(units=['parse'], title='parsing'),
     'C11': dict(units=['radixout'], title='radix output'),
-    'C13': dict(units=['xcast'], title='checked conversions'),
+    'C13': dict(units=['cast', 'xcast'], title='checked conversions'),
     'C14': dict(units=[], level='model_checking', title='float casts'),
     'C19': dict(units=[], level='model_checking', title='num_traits conversions'),
     'C15': dict(units=['slices'], title='slices and endianness'),
     'C16': dict(units=['consts'], title='digit-type independence and constants'),
+    'C20': dict(units=['random'], title='random sampling: range membership and unbiasedness'),
 }
 
 # units instantiated for an ordered PAIR of digit types (target `$D..`, source `$D2..`): their entries
